@@ -215,7 +215,16 @@ func (r *BumpRequest) MaxFeeRateAllowed() (chainfee.SatPerKWeight, error) {
 	// sets the budget to be proportional to the input value, the fee rate
 	// can be very high and we need to make sure it doesn't exceed the max
 	// fee rate.
-	maxFeeRateAllowed := chainfee.NewSatPerKWeight(r.Budget, size)
+	//
+	// NOTE: the budget fee rate is rounded down so that the fee paid at
+	// this rate (rate * size / 1000) never exceeds the budget. Rounding to
+	// the nearest integer, as `chainfee.NewSatPerKWeight` does, can give a
+	// rate whose fee is above the budget once the tx is larger than 2000
+	// wu, in which case the tx built at the ending fee rate would be
+	// rejected by the budget check in `createAndCheckTx`.
+	maxFeeRateAllowed := chainfee.SatPerKWeight(
+		int64(r.Budget) * 1000 / int64(size),
+	)
 	if maxFeeRateAllowed > r.MaxFeeRate {
 		log.Debugf("Budget feerate %v exceeds MaxFeeRate %v, use "+
 			"MaxFeeRate instead, txWeight=%v", maxFeeRateAllowed,
